@@ -73,7 +73,8 @@ def native_check(qualname: str, env: Dict[str, Any], self_class=None) -> Dict[st
     raised = None
     try:
         if is_ctor:
-            args = {p: env[p] for p in params[1:] if p in env}
+            # None stands for "keyword not given" (attrs NOTHING) in constructor contracts
+            args = {p: env[p] for p in params[1:] if p in env and not (p == 'data_type' and env[p] is None)}
             result = owner(**args)
         elif isinstance(raw, property):
             result = getattr(env[params[0]], attr)
@@ -101,7 +102,7 @@ def native_check(qualname: str, env: Dict[str, Any], self_class=None) -> Dict[st
         raised = e
     out['outcome'] = f'raised {type(raised).__name__}: {raised}' if raised is not None else f'returned {result!r}'[:400]
     after = snapshot([env.get(p) for p in params if p in env])
-    if before != after:
+    if before != after and not con.narrows:
         out['violated'].append('frame: an argument was modified')
     try:
         if raised is not None:
